@@ -12,6 +12,7 @@ import WowVerif.Model.SemSize
 import WowVerif.Model.UpdateMask
 import WowVerif.Model.ChunkFrame
 import WowVerif.Model.View
+import WowVerif.Model.Cfg
 import Std.Data.HashMap
 namespace WowVerif.Driver
 
@@ -516,8 +517,53 @@ def umHandle (ws : List String) : Option String :=
     | _, _ => some "bad-op"
   | _ => none
 
+/-- prefix tokens of a cfg formula: T | F<n> | N x | A x y | O x y -/
+partial def parseCfg : List String → Option (WowVerif.Cfg.F × List String)
+  | "T" :: r => some (.tt, r)
+  | "N" :: r => match parseCfg r with
+      | some (x, r) => some (.not x, r)
+      | none => none
+  | "A" :: r => match parseCfg r with
+      | some (x, r) => match parseCfg r with
+        | some (y, r) => some (.and x y, r)
+        | none => none
+      | none => none
+  | "O" :: r => match parseCfg r with
+      | some (x, r) => match parseCfg r with
+        | some (y, r) => some (.or x y, r)
+        | none => none
+      | none => none
+  | t :: r => if t.startsWith "F" then (t.drop 1).toNat?.map (fun n => (WowVerif.Cfg.F.feat n, r)) else none
+  | [] => none
+
+def parseCfgRef (t : String) : Option WowVerif.Cfg.Ref :=
+  match t.splitOn ">" with
+  | [a, b] => match parseCfg (a.splitOn "."), parseCfg (b.splitOn ".") with
+      | some (x, []), some (y, []) => some ⟨x, y⟩
+      | _, _ => none
+  | _ => none
+
 def handle (ws : List String) : String :=
   match ws with
+  | "cfgcheck" :: n :: imp :: refs =>
+      -- C19: the verified cfg-closure checker on guards / references re-extracted from the sources
+      let impL : Option (List (Nat × Nat)) := if imp == "-" then some [] else (imp.splitOn ",").mapM fun p => match p.splitOn ":" with
+        | [a, b] => match a.toNat?, b.toNat? with | some a, some b => some (a, b) | _, _ => none
+        | _ => none
+      match n.toNat?, impL, refs.mapM parseCfgRef with
+      | some n, some impL, some rs =>
+        if !WowVerif.Cfg.wellFormed n impL rs then "notwf"
+        else if WowVerif.Cfg.checkAll n impL rs then s!"ok 1 refs={rs.length} assignments={2 ^ n}"
+        else
+          -- name the first reference and assignment that fail
+          let bad := (WowVerif.Cfg.allEnvs n).findSome? fun l =>
+            if WowVerif.Cfg.consistent impL (WowVerif.Cfg.envOf l) then
+              ((List.range rs.length).find? fun i => !(WowVerif.Cfg.refOk (WowVerif.Cfg.envOf l) (rs.getD i default))).map fun i => (i, l)
+            else none
+          match bad with
+          | some (i, l) => s!"ok 0 ref={i} on={" ".intercalate (((List.range n).filter fun k => l.getD k false).map toString)}"
+          | none => "ok 0"
+      | _, _, _ => "bad-op"
   | ["dt", n] => match n.toNat? with
       | some v => if v < 4294967296 then DateTime.render v else "bad-op"
       | none => "bad-op"
